@@ -34,6 +34,15 @@ class CallMixin:
                 if isinstance(fn, ast.Attribute) and "self" in lc[key].params:
                     args = [self.eval(fn.value, st)] + args
                 return self.apply_contract(lc[key], args, kwargs, st, node, label=key)
+        if isinstance(fn, ast.Attribute) and fn.attr == "__setattr__" and isinstance(fn.value, ast.Name) and fn.value.id == "object" and len(node.args) == 3 \
+                and isinstance(node.args[1], ast.Constant) and not self.spec_mode:
+            # object.__setattr__(self, "name", value): attribute initialisation of a frozen dataclass
+            owner = self.eval(node.args[0], st)
+            val = self.eval(node.args[2], st)
+            key = (owner.t.get_id(), node.args[1].value)
+            st.heap[key] = val
+            st.notes.setdefault("heap_terms", {})[key] = owner.t
+            return S_none()
         # method call ---------------------------------------------------------
         if isinstance(fn, ast.Attribute):
             if isinstance(fn.value, ast.Call) and isinstance(fn.value.func, ast.Name) and fn.value.func.id == "super":
@@ -98,6 +107,8 @@ class CallMixin:
     def external_call(self, q: str, node, st) -> Sym:
         if q == "itertools.zip_longest":
             return self.zip_longest(node, st)
+        if q == "itertools.chain.from_iterable":
+            return self.flatcat(self.materialise(self.eval(node.args[0], st), st, node), st)
         args, kwargs = self.eval_args(node, st)
         c = self.reg.contracts.get(q)
         if c is not None:
@@ -261,6 +272,30 @@ class CallMixin:
                 items.append(self.ite(k < v.length, e, fill, st_))
             return Sym("pyobj", None, None, ("pytuple", items))
         return Sym("pyobj", None, None, ("iterview", IterView(n, get, None)))
+
+    def flatcat(self, rows: Sym, st) -> Sym:
+        """chain.from_iterable(rows): concatenation of a sequence of sequences, axiomatised by 2-D indexing:
+        off(j) = start of row j in the result; row(i) = the row that result index i falls in."""
+        S = rows.t
+        r = Q._fresh_sq(st, "flat")
+        binders = st.notes.get("binders") or []
+        off = z3.Function(fresh_name("off"), *[b.sort() for b in binders], IntS, IntS)
+        row = z3.Function(fresh_name("row"), *[b.sort() for b in binders], IntS, IntS)
+        j, t, i = fresh("fj", IntS), fresh("ft", IntS), fresh("fi", IntS)
+        O_ = lambda x: off(*binders, x)
+        R_ = lambda x: row(*binders, x)
+        rowj = unS(Q.At(S, j))
+        st.assume(O_(z3.IntVal(0)) == 0)
+        st.assume(z3.ForAll([j], z3.Implies(z3.And(0 <= j, j < Q.Length(S)), z3.And(O_(j + 1) == O_(j) + Q.Length(rowj), O_(j) >= 0)), patterns=[O_(j)]))
+        st.assume(Q.Length(r) == O_(Q.Length(S)))
+        st.assume(z3.ForAll([j, t], z3.Implies(z3.And(0 <= j, j < Q.Length(S), 0 <= t, t < Q.Length(rowj)),
+                                              z3.And(Q.At(r, O_(j) + t) == Q.At(rowj, t), O_(j) + t < Q.Length(r), R_(O_(j) + t) == j)),
+                            patterns=[Q.At(rowj, t)]))
+        ri = unS(Q.At(S, R_(i)))
+        st.assume(z3.ForAll([i], z3.Implies(z3.And(0 <= i, i < Q.Length(r)),
+                                           z3.And(0 <= R_(i), R_(i) < Q.Length(S), O_(R_(i)) <= i, i < O_(R_(i)) + Q.Length(ri),
+                                                  Q.At(r, i) == Q.At(ri, i - O_(R_(i))))), patterns=[Q.At(r, i)]))
+        return Sym("seq", r, Spec("seq", VAL))
 
     def b_range(self, node, st):
         a = [as_int(self.eval(x, st), st) for x in node.args]
